@@ -203,7 +203,81 @@ def oracle_unwrap(inp):
     return None
 
 
-ORACLES = {'nest': oracle_nest, 'unwrap': oracle_unwrap}
+def routing_of(t):
+    return [(r.rq_sa, r.rs_sa, r.channel) for r in (t.routing or [])]
+
+
+def oracle_nest_seq(inp):
+    """Several encode_bridged_message calls through the SAME Target / routing list (and, with
+    reuse_hdr, the same header object): every call must produce the full nest - as if it were the
+    first - and leave target.routing as it was."""
+    routing, how = inp['routing'], inp.get('how', 'tuple')
+    t = make_routing(routing, how)
+    want_routing = [tuple(r) for r in routing[:-1]] + [(routing[-1][0], routing[-1][1], None)]
+    if routing_of(t) != want_routing:
+        return 'Target.set_routing(%s) gives %r, expected %r' % (how, routing_of(t), want_routing)
+    hdr = _ipmb().IpmbHeaderReq()
+    for n, c in enumerate(inp['calls']):
+        h, p, seq = c['h'], bytes.fromhex(c['p']), c['seq']
+        if not inp.get('reuse_hdr'):
+            hdr = _ipmb().IpmbHeaderReq()
+        for k, v in zip(FIELDS, h):
+            setattr(hdr, k, v)
+        try:
+            tx = bytes(_ipmb().encode_bridged_message(t.routing, hdr, p, seq))
+        except Exception as e:  # noqa
+            return 'call %d through the same Target: encode_bridged_message raised %s: %s' % (n, type(e).__name__, e)
+        r = spec_peel(len(routing) - 1, tx)
+        if r is None:
+            return 'call %d through the same Target: a bridge on the path rejects the frame %s' % (n, tx.hex())
+        hops, inner = r
+        want_hops = [[x[0], x[1], x[2], 1, seq] for x in routing[:-1]]
+        if hops != want_hops:
+            return 'call %d through the same Target: hops seen by the bridges %r differ from the routing %r' % (n, hops, want_hops)
+        want_inner = spec_request_frame(routing[-1][1], h[1], routing[-1][0], h[3], h[4], h[5], h[6], p)
+        if inner != want_inner:
+            return 'call %d through the same Target: innermost frame %s is not the original request %s' % (
+                n, inner.hex(), want_inner.hex())
+        if routing_of(t) != want_routing:
+            return 'after call %d target.routing is %r, it was %r' % (n, routing_of(t), want_routing)
+    return None
+
+
+def oracle_unwrap_seq(inp):
+    """decode_bridged_message called repeatedly on the SAME input objects (bytes / bytearray /
+    array): every call gives the target's reply (or the layer's error) and leaves its input alone."""
+    from array import array
+    import pyipmi.errors as E
+    ipmb = _ipmb()
+    pool = []
+    for it in inp['pool']:
+        r = bytes.fromhex(it['r'])
+        f = r
+        for w, cc in reversed(list(zip(it['ws'], it['ccs']))):
+            f = spec_wrap_reply(w, cc, f)
+        objs = {'bytes': f, 'bytearray': bytearray(f), 'array': array('B', f)}
+        pool.append((f, objs, r, [cc for cc in it['ccs'] if cc != 0]))
+    for n, c in enumerate(inp['calls']):
+        f, objs, r, bad = pool[c['i']]
+        obj = objs[c['as']]
+        try:
+            got = bytes(ipmb.decode_bridged_message(obj))
+            err = None
+        except E.CompletionCodeError as e:
+            got, err = None, e.cc
+        except Exception as e:  # noqa
+            return 'call %d (%s input reused): raised %s: %s' % (n, c['as'], type(e).__name__, e)
+        if bad:
+            if err != bad[0]:
+                return 'call %d (%s input reused): expected CompletionCodeError(0x%02x), got %r / cc %r' % (n, c['as'], bad[0], got, err)
+        elif err is not None or got != r:
+            return 'call %d (%s input reused): unwrapped %r (cc %r), the target replied %s' % (n, c['as'], got, err, r.hex())
+        if bytes(obj) != f:
+            return 'call %d: decode_bridged_message changed its %s argument' % (n, c['as'])
+    return None
+
+
+ORACLES = {'nest': oracle_nest, 'unwrap': oracle_unwrap, 'nest_seq': oracle_nest_seq, 'unwrap_seq': oracle_unwrap_seq}
 
 
 def _load_e2e():
@@ -427,6 +501,71 @@ def run(ctx):
             f[13] = rng.choice([0, 0, 0xc1])
         decode_case(bytes(f), 'decode-random')
 
+    # ---- histories: several calls through the SAME Target / routing list (and header object); every step is
+    # compared with the (stateless) model and judged by the oracle; a failing history is confirmed and shrunk
+    # in fresh processes
+    def history_fail(key, oname, calls, extra, msg):
+        if key in fails:
+            return
+        seq = C.shrink_history('C09', oname, calls, key='calls', extra=extra)
+        if seq is None:
+            seq = calls      # does not reproduce from a clean start: keep the history as observed
+        inp = dict(extra, calls=seq)
+        fails[key] = C.Violation(key=key, what=(ORACLES[oname](inp) or msg) + ' [history of %d call(s)]' % len(seq),
+                                 replay={'oracle': oname, 'input': inp})
+
+    for depth in range(1, maxdepth + 1):
+        for rep in range(4 if q else 16):
+            small = rng.random() < 0.5
+            routing = [rand_route(rng, small) for _ in range(depth)]
+            routing[-1][2] = 0
+            how, reuse = hows[rep % 4], rep % 2 == 1
+            calls = []
+            for _ in range(rng.randrange(2, 6)):
+                h = rand_hdr(rng, small)
+                calls.append({'h': h, 'p': payload(rng.randrange(0, 41)).hex(), 'seq': h[4]})
+            # step-by-step correspondence on one Target
+            t = make_routing(routing, how)
+            hdr = ipmb.IpmbHeaderReq()
+            for c in calls:
+                if not reuse:
+                    hdr = ipmb.IpmbHeaderReq()
+                for k, v in zip(FIELDS, c['h']):
+                    setattr(hdr, k, v)
+                out = attempt(lambda: bytes(ipmb.encode_bridged_message(t.routing, hdr, bytes.fromhex(c['p']), c['seq'])))
+                add('chk_bridged %s %s %s %d %s %s' % (C.c_list([nl(x) for x in routing]), nl(c['h']),
+                                                     C.c_hex(bytes.fromhex(c['p'])), c['seq'], c_res(out),
+                                                     nl([getattr(hdr, k) for k in FIELDS])),
+                    ('bridged-history', routing, c['h'], c['p'], how))
+            extra = {'routing': routing, 'how': how, 'reuse_hdr': reuse}
+            res.evaluations += len(calls)
+            msg = ORACLES['nest_seq'](dict(extra, calls=calls))
+            if msg:
+                history_fail('encode_bridged_message:call-depends-on-earlier-calls', 'nest_seq', calls, extra, msg)
+            D.add(('hist', repr(extra), repr(calls)), True, 'bridged-history-depth%d' % depth)
+    # decode on reused input objects
+    for rep in range(6 if q else 40):
+        pool = []
+        for _ in range(rng.randrange(1, 4)):
+            depth = rng.randrange(0, maxdepth + 1)
+            h = rand_hdr(rng)
+            if h[6] == 0x34:
+                h[6] = 0x35
+            ccs = [0] * depth
+            if depth and rng.random() < 0.3:
+                ccs[rng.randrange(depth)] = rng.randrange(1, 256)
+            r = spec_reply_frame(h, payload(rng.randrange(0, 20))) if not any(ccs) else b''
+            k = next((i for i, cc in enumerate(ccs) if cc), depth - 1)
+            pool.append({'ws': [rand_w() for _ in range(k + 1 if any(ccs) else depth)],
+                         'ccs': ccs[:k + 1] if any(ccs) else ccs, 'r': r.hex()})
+        calls = [{'i': rng.randrange(len(pool)), 'as': rng.choice(['bytes', 'bytearray', 'array'])}
+                 for _ in range(rng.randrange(2, 8))]
+        res.evaluations += len(calls)
+        msg = ORACLES['unwrap_seq']({'pool': pool, 'calls': calls})
+        if msg:
+            history_fail('decode_bridged_message:call-depends-on-earlier-calls', 'unwrap_seq', calls, {'pool': pool}, msg)
+        D.add(('dhist', repr(pool), repr(calls)), True, 'decode-history')
+
     # ---- the two copies of the specification side
     for _ in range(60 if q else 400):
         w, cc, emb = rand_w(), rng.choice([0, 0, rng.randrange(256)]), payload(rng.randrange(0, 20))
@@ -462,6 +601,26 @@ def run(ctx):
                 oracle('e2e', inp, 'Rmcp.send_and_receive_raw:bridged-%s'
                        % ('hop-error' if inp['fail_layer'] is not None else 'reply'))
                 D.add(('e2e', repr(sorted(inp.items()))), True, 'rmcp-end-to-end-depth%d' % depth)
+
+        # several requests through one Rmcp object and ONE Target object
+        for depth in range(1, maxdepth + 1):
+            for rep in range(3 if q else 12):
+                routing = [rand_route(rng, rng.random() < 0.5) for _ in range(depth)]
+                routing[-1][2] = 0
+                calls = []
+                for _ in range(rng.randrange(2, 5)):
+                    cmd = rng.choice([1, 0x33, 0x35, rng.randrange(256)])
+                    calls.append({'lun': rng.randrange(4), 'netfn': rng.randrange(0, 64, 2), 'cmd': 0x35 if cmd == 0x34 else cmd,
+                                  'p': payload(rng.randrange(0, 41)).hex(), 'reply': payload(rng.randrange(1, 41)).hex(),
+                                  'acks': rng.randrange(0, 3),
+                                  'fail_layer': rng.choice([None, None, None, rng.randrange(depth - 1)]) if depth > 1 else None,
+                                  'cc': rng.randrange(1, 256)})
+                extra = {'routing': routing, 'seq0': rng.randrange(64), 'max_retries': rng.randrange(0, 4)}
+                res.evaluations += len(calls)
+                msg = ORACLES['e2e'](dict(extra, calls=calls))
+                if msg:
+                    history_fail('Rmcp.send_and_receive_raw:bridged-request-depends-on-earlier-requests', 'e2e', calls, extra, msg)
+                D.add(('e2ehist', repr(extra), repr(calls)), True, 'rmcp-end-to-end-history-depth%d' % depth)
 
     failing, errors = C.coq_cases('C09', 'Corr.C09', terms)
     res.mismatches = [{'case': meta[i], 'term': terms[i][:600]} for i in failing[:50]]
